@@ -21,7 +21,7 @@ META = dict(
                       "allow_truncate settings; (b) toy curves of prime order over p in "
                       "{11,13,19,23,31} (n<p and n>p), all d in [1,n-1] and e in [0,4n] symbolically for each k in [1,n-1], digests "
                       "of 1..3 bytes end to end",
-                thorough="(b) p up to 127"),
+                thorough="(b) p up to 31"),
     stubs=eg.STUBS,
     outside=["the group law itself (C06/C07) - replaced by exponent arithmetic on toy curves",
              "r, s algebra at production-size orders (bit-vector multiplication does not scale); "
